@@ -60,6 +60,9 @@ import numpy as np
 
 def make_slice_cache(cycle_vect):
     """Create a list of slice objects from a cycle_vect."""
+    if np.max(cycle_vect) < 0:
+        # No cycles, so no slices
+        return []
     starts = np.where(np.diff(cycle_vect, axis=0) == 1)[0] + 1
     stops = starts
 
